@@ -312,6 +312,76 @@ func (e *Engine) structural(spec string) (bool, string) {
 			return false, strings.Join(dedupe(bad), "; ")
 		}
 		return true, fmt.Sprintf("%d entries each, mutually inverse", len(a))
+	case "chan-never-closed":
+		// chan-never-closed|<pkg name>|<Type.field>: no function of the package applies close() to the channel held
+		// in that field (directly or through a local copy of the field's value). A send on the channel can then
+		// never hit a closed channel, whatever the interleaving.
+		if len(parts) != 3 {
+			return false, "bad spec"
+		}
+		var bad []string
+		uses := 0
+		isField := func(v ssa.Value) bool {
+			for depth := 0; depth < 4; depth++ {
+				switch x := v.(type) {
+				case *ssa.UnOp:
+					if x.Op != token.MUL {
+						return false
+					}
+					fa, ok := x.X.(*ssa.FieldAddr)
+					if !ok {
+						return false
+					}
+					owner := deref(fa.X.Type())
+					nt, _ := types.Unalias(owner).(*types.Named)
+					st, _ := owner.Underlying().(*types.Struct)
+					return nt != nil && st != nil && nt.Obj().Name()+"."+st.Field(fa.Field).Name() == parts[2]
+				case *ssa.Field:
+					nt, _ := types.Unalias(x.X.Type()).(*types.Named)
+					st, _ := x.X.Type().Underlying().(*types.Struct)
+					return nt != nil && st != nil && nt.Obj().Name()+"."+st.Field(x.Field).Name() == parts[2]
+				case *ssa.ChangeType:
+					v = x.X
+				default:
+					return false
+				}
+			}
+			return false
+		}
+		for key, fn := range e.funcs {
+			pk := fnPackage(fn)
+			if pk == nil || pkgKey(pk) != parts[1] || fn.Blocks == nil {
+				continue
+			}
+			for _, b := range fn.Blocks {
+				for _, ins := range b.Instrs {
+					switch x := ins.(type) {
+					case *ssa.Send:
+						if isField(x.Chan) {
+							uses++
+						}
+					case ssa.CallInstruction:
+						if bi, ok := x.Common().Value.(*ssa.Builtin); ok && bi.Name() == "close" && len(x.Common().Args) == 1 && isField(x.Common().Args[0]) {
+							bad = append(bad, fmt.Sprintf("%s closes %s at %s", key, parts[2], e.fset.Position(ins.Pos())))
+						}
+					case *ssa.Select:
+						for _, st := range x.States {
+							if st.Dir == types.SendOnly && isField(st.Chan) {
+								uses++
+							}
+						}
+					}
+				}
+			}
+		}
+		if len(bad) > 0 {
+			sort.Strings(bad)
+			return false, strings.Join(bad, "; ")
+		}
+		if uses == 0 {
+			return false, "no send on the channel found (vacuous)"
+		}
+		return true, fmt.Sprintf("%d send sites, no close", uses)
 	case "types-frozen":
 		// types-frozen|<pkg name>|<pkg.T,...>: no function of the package stores into a field of a value of one of
 		// these struct types through a pointer, or into an element of a slice of them (values are only ever
